@@ -448,6 +448,11 @@ impl<'a> Enumerator<'a> {
         }
         if fail.is_none() {
             if let Err(e) = st.sync() {
+                if e.starts_with("TIMEOUT") {
+                    // not judged
+                    st.close();
+                    return;
+                }
                 fail = Some(("continuation_flush".into(), format!("after recovery, flush+ack+idle: {}", e)));
             }
         }
